@@ -180,7 +180,16 @@ def run_case(case, ch):
     with World(ch, uuid_modules=UUID_MODULES, max_steps=3000) as w:
         if queue_kind == 'queue':
             store = FaultStore(w, {int(k): v for k, v in plan.items()}, log)
-            q = Queue(store, relay=None, store_pool=case.get('store_pool'))
+            sp = case.get('store_pool')
+            if case.get('shared_pool'):
+                # one bounded pool object serves the edge's connection handlers and the queue's storage tasks; another
+                # connection holds a slot and leaves a moment later
+                from gevent.pool import Pool as _Pool
+                sp = _Pool(case['shared_pool'])
+                obs['spawn'] = sp.spawn
+                for k in range(case['shared_pool'] - 1):
+                    sp.spawn(lambda k=k: w.env_wait('other-connection-%d-leaves' % k))
+            q = Queue(store, relay=None, store_pool=sp)
             add_policies(q, chain)
         elif queue_kind == 'queue-disk':
             # real DiskStorage over the in-memory FS; aio requests may complete for fewer bytes than asked
@@ -272,7 +281,7 @@ def run_case(case, ch):
                         raise
                     except BaseException as e:
                         obs['end'] = 'raised:' + type(e).__name__
-                gevent.spawn(serve)
+                obs.pop('spawn', gevent.spawn)(serve)
                 data = b'EHLO c\r\nMAIL FROM:<s@o.test>\r\n' + b''.join(b'RCPT TO:<%s>\r\n' % r.encode() for r in rcpts) + \
                     b'DATA\r\nSubject: t\r\n\r\nbody\r\n.\r\nQUIT\r\n'
                 csock.sendall(data)
@@ -304,7 +313,7 @@ def run_case(case, ch):
                         raise
                     except BaseException as e:
                         obs['end'] = 'raised:' + type(e).__name__
-                gevent.spawn(serve)
+                obs.pop('spawn', gevent.spawn)(serve)
                 w.run_until_quiescent()
             finally:
                 edge_wsgi.PtrLookup = saved
@@ -410,6 +419,11 @@ def cases(tier):
                                 for b in KINDS:
                                     yield {'edge': edge, 'queue': 'queue', 'chain': chain, 'n': n, 'plan': {str(k1): a, str(k2): b}}
                     yield {'edge': edge, 'queue': 'queue', 'chain': chain, 'n': n, 'plan': {'0': 'slow'}, 'store_pool': 1}
+                if chain in ('none', 'split') and n <= 2:
+                    # the edge's handlers and the queue's storage tasks share one bounded pool, full at the moment of the enqueue
+                    for kind in ('qerr', 'exc', 'slow', 'slow-qerr'):
+                        yield {'edge': edge, 'queue': 'queue', 'chain': chain, 'n': n, 'plan': {str(m - 1): kind}, 'shared_pool': 2}
+                    yield {'edge': edge, 'queue': 'queue', 'chain': chain, 'n': n, 'plan': {}, 'shared_pool': 2}
         for n in (1, 2, 3):
             for o in ['none', 'reply', 'temp', 'perm', 'exc'] + ['map:' + ''.join(a) for a in itertools.product('otp', repeat=n)]:
                 yield {'edge': edge, 'queue': 'proxy', 'chain': 'none', 'n': n, 'plan': {'relay': o}}
